@@ -152,7 +152,15 @@ impl<'a> Ck<'a> {
             let (a, b) = ((e.parse)(t), (tw.parse)(t));
             let (pa, pb) = ((e.partial)(t), (tw.partial)(t));
             if a != b || pa != pb {
-                let kind = if a != b { "c-complete" } else if matches!((&pa, &pb), (R::Err(_), R::Ok(_, _)) | (R::Ok(_, _), R::Err(_))) && matches!((&pa, &pb), (R::Err(x), _) | (_, R::Err(x)) if x.starts_with("Empty")) { "c-partial-empty" } else { "c-partial" };
+                // "c-partial-empty" (a recorded known finding) is the case of an input with no digit
+                // after the optional sign; an input that starts with a digit is never that case
+                let body = match t.first() {
+                    Some(b'+') => &t[1..],
+                    Some(b'-') if !e.ty.starts_with('u') => &t[1..], // '-' is no sign for unsigned types
+                    _ => t,
+                };
+                let digitless = !matches!(body.first(), Some(&c) if matches!(vkit::big::digit_value(c), Some(v) if v < d.mantissa_radix));
+                let kind = if a != b { "c-complete" } else if digitless && matches!((&pa, &pb), (R::Err(_), R::Ok(_, _)) | (R::Ok(_, _), R::Err(_))) && matches!((&pa, &pb), (R::Err(x), _) | (_, R::Err(x)) if x.starts_with("Empty")) { "c-partial-empty" } else { "c-partial" };
                 self.rep.violation(
                     format!("{}|{}|{}|{}", d.name, e.ty, kind, hex(t)),
                     format!("C13 [{}] separator-free input {:?} ({}): format gives {:?} / partial {:?}, its separator-free counterpart gives {:?} / partial {:?}", d.name, show_trunc(t), e.ty, a, pa, b, pb),
